@@ -223,6 +223,71 @@ fn planar(rng: &mut Rng) {
     }
 }
 
+/// planar disks with ONE needle face (smallest angle 0.005 - 5 degrees) among well-shaped ones: a fan over a
+/// square whose apex sits just above one side, or a regular grid with one interior vertex pushed
+/// against the opposite edge of one of its faces
+fn needle_disk(rng: &mut Rng) -> (Disk, f64) {
+    let size = *rng.pick(&[1.0, 0.1, 7.0]);
+    let h = 10f64.powf(rng.range(-4.0, -1.2));
+    if rng.chance(0.5) {
+        let x = rng.range(0.2, 0.8);
+        let pts = vec![(0.0, 0.0), (1.0, 0.0), (1.0, 1.0), (0.0, 1.0), (x, h)];
+        let faces = vec![[0u32, 1, 4], [1, 2, 4], [2, 3, 4], [3, 0, 4]];
+        (Disk { pts: pts.iter().map(|p| Point2::new(size * p.0, size * p.1)).collect(), faces }, h)
+    } else {
+        let n = rng.int(4, 7) as usize;
+        let mut pts: Vec<Point2> = vec![];
+        for j in 0..n {
+            for i in 0..n {
+                pts.push(Point2::new(i as f64, j as f64));
+            }
+        }
+        let mut faces = vec![];
+        for j in 0..n - 1 {
+            for i in 0..n - 1 {
+                let a = (j * n + i) as u32;
+                let (b, c) = (a + 1, a + n as u32);
+                faces.push([a, b, c + 1]);
+                faces.push([a, c + 1, c]);
+            }
+        }
+        // interior vertex (i, j): the edge from (i, j-1) to (i+1, j) bounds its one-ring
+        let (i, j) = (rng.int(1, n as i64 - 2) as usize, rng.int(1, n as i64 - 2) as usize);
+        let s = h / 2f64.sqrt();
+        pts[j * n + i] = Point2::new(i as f64 + 0.5 - s, j as f64 - 0.5 + s);
+        (Disk { pts: pts.iter().map(|p| Point2::new(size * p.x, size * p.y)).collect(), faces }, h)
+    }
+}
+
+fn planar_needle(rng: &mut Rng) {
+    let (d, h) = needle_disk(rng);
+    let pose: Iso3 = gen::iso3(rng, 30.0);
+    let v3: Vec<Point3> = d.pts.iter().map(|p| pose * Point3::new(p.x, p.y, 0.0)).collect();
+    let mesh = Mesh::new(v3.clone(), d.faces.clone(), false);
+    let size = d.pts.iter().map(|p| p.coords.norm()).fold(0.0, f64::max) + 1e-9;
+    let mut v = Verdict::new();
+    match flatten(&mesh) {
+        None => v.require(false, "flatten.terminates", || "no result within 20 s".into()),
+        Some(Err(e)) => v.require(false, "flatten.accepts_planar_disk", || format!("needle h={h:e}: {e}")),
+        Some(Ok((uv, _))) => {
+            v.require(uv.len() == d.pts.len() && uv.iter().all(|p| p.x.is_finite() && p.y.is_finite()), "flatten.finite", || "".into());
+            let mut worst: f64 = 0.0;
+            for (a, b) in edge_list(&d.faces) {
+                worst = worst.max(((v3[a as usize] - v3[b as usize]).norm() - (uv[a as usize] - uv[b as usize]).norm()).abs());
+            }
+            if std::env::var("VH_C20_TRACE").is_ok() {
+                eprintln!("needle h={h:e} n={} worst/size={:e}", d.pts.len(), worst / size);
+            }
+            v.require(worst <= NEEDLE_TOL * size, "flatten.planar_needle_edge_lengths_kept", || format!("worst edge length change {worst:e} (size {size:e}, needle height {h:e} of a unit edge)"));
+            let neg = d.faces.iter().filter(|f| area2(&uv[f[0] as usize], &uv[f[1] as usize], &uv[f[2] as usize]) <= 0.0).count();
+            v.require(neg == 0, "flatten.needle_triangles_keep_positive_orientation", || format!("{neg} of {} triangles are not positively oriented (needle height {h:e})", d.faces.len()));
+        }
+    }
+    emit_oracle_only("flatten.needle", &Tok::new(), &Tok::new(), &v);
+}
+
+const NEEDLE_TOL: f64 = 1e-4;
+
 fn curved(rng: &mut Rng) {
     let nx = rng.int(3, 8) as usize;
     let ny = rng.int(3, 8) as usize;
@@ -365,7 +430,7 @@ fn uv_round_trip(rng: &mut Rng) {
 
 pub fn run(rng: &mut Rng, n: usize) {
     for _ in 0..n {
-        let which = rng.below(10);
+        let which = rng.below(11);
         let state = rng.0;
         let r = guarded(|| {
             let mut local = Rng(state);
@@ -373,6 +438,7 @@ pub fn run(rng: &mut Rng, n: usize) {
                 0..=4 => planar(&mut local),
                 5 | 6 => curved(&mut local),
                 7 | 8 => rejections(&mut local),
+                10 => planar_needle(&mut local),
                 _ => uv_round_trip(&mut local),
             }
             local.0
